@@ -2,7 +2,7 @@
    the packrat memo (BoundedDict), seeds for left recursion, guards, pruning at cuts - and the
    clean, memo-free semantics used as the reference.  Model only, no proofs. *)
 From Coq Require Import List NArith ZArith Arith Bool.
-From TatsuV Require Import Base.PyStr Engine.Value Engine.Syntax Engine.Input Engine.Engine.
+From TatsuV Require Import Base.PyStr Engine.Value Engine.Syntax Engine.Input Engine.Engine Engine.Gen.
 Import ListNotations.
 
 (* engine configuration, resolved *)
@@ -225,6 +225,11 @@ Definition fcall (n : nat) (ev : @ev_t gstate) (r : nat) (f : frame) (st : gstat
 
 Definition feval (n : nat) (e : exp) (f : frame) (st : gstate) : res * gstate :=
   geval text re_at isalnum isalpha lower ic unsafe f_on_cut fcall n e f st.
+
+(* the generated parser: the same call machinery around the generated-code semantics of Gen.v *)
+Definition geneval (n : nat) (e : exp) (f : frame) (st : gstate) : res * gstate :=
+  geval_gen text re_at isalnum isalpha lower ic unsafe f_on_cut fcall n e f st.
+Definition genparse_with (n : nat) (start : nat) : res * gstate := geneval n (Call start) (newf 0) gstate0.
 
 (* the API entry point: parse from rule `start` at position 0; the result is the rule's value *)
 Definition parse_with (n : nat) (start : nat) : res * gstate := feval n (Call start) (newf 0) gstate0.
